@@ -61,6 +61,58 @@ pub fn run(case: &Value) -> Value {
                 Err(e) => json!({"ok": false, "doc_err": format!("{:?}", e)}),
             }
         }
+        "siblings" => {
+            // next_sibling()/previous_sibling() of every child of the root element, as indices into its child list
+            use xml_dom::{Document, Node};
+            match xml_dom::XmlDocument::from_raw(input) {
+                Ok((_, doc)) => {
+                    let root = doc.document_element().unwrap();
+                    let kids: Vec<xml_dom::XmlNode> = root.child_nodes().iter().collect();
+                    let label = |n: &xml_dom::XmlNode| -> String { format!("{}|{}", n.node_name(), n.node_value().ok().flatten().unwrap_or_default()) };
+                    let labels: Vec<String> = kids.iter().map(|n| label(n)).collect();
+                    let kinds: Vec<String> = kids.iter().map(|n| format!("{:?}", n.node_type())).collect();
+                    let index = |n: Option<xml_dom::XmlNode>| -> i64 {
+                        match n {
+                            None => -1,
+                            Some(n) => labels.iter().position(|l| *l == label(&n)).map(|p| p as i64).unwrap_or(-2),
+                        }
+                    };
+                    let next: Vec<i64> = kids.iter().map(|n| index(n.next_sibling())).collect();
+                    let prev: Vec<i64> = kids.iter().map(|n| index(n.previous_sibling())).collect();
+                    json!({"ok": true, "labels": labels, "kinds": kinds, "next": next, "prev": prev})
+                }
+                Err(e) => json!({"ok": false, "doc_err": format!("{:?}", e)}),
+            }
+        }
+        "split_siblings" => {
+            // split_text(offset) on child `child` of the root element: the child list before and after
+            use xml_dom::{Document, Node, TextMut};
+            match xml_dom::XmlDocument::from_raw(input) {
+                Ok((_, doc)) => {
+                    let root = doc.document_element().unwrap();
+                    let label = |n: &xml_dom::XmlNode| -> String { format!("{}|{}", n.node_name(), n.node_value().ok().flatten().unwrap_or_default()) };
+                    let kids: Vec<xml_dom::XmlNode> = root.child_nodes().iter().collect();
+                    let before: Vec<String> = kids.iter().map(|n| label(n)).collect();
+                    let kinds: Vec<String> = kids.iter().map(|n| format!("{:?}", n.node_type())).collect();
+                    let at = case["child"].as_u64().unwrap_or(0) as usize;
+                    let offset = case["offset"].as_u64().unwrap_or(0) as usize;
+                    if at >= kids.len() {
+                        return json!({"ok": false, "kinds": kinds, "err": "no such child"});
+                    }
+                    let r = match &kids[at] {
+                        xml_dom::XmlNode::Text(t) => t.split_text(offset).map(|n| label(&xml_dom::AsNode::as_node(&n))),
+                        xml_dom::XmlNode::CData(t) => t.split_text(offset).map(|n| label(&xml_dom::AsNode::as_node(&n))),
+                        _ => return json!({"ok": false, "kinds": kinds, "err": "not a text node"}),
+                    };
+                    let after: Vec<String> = root.child_nodes().iter().map(|n| label(&n)).collect();
+                    match r {
+                        Ok(l) => json!({"ok": true, "kinds": kinds, "before": before, "after": after, "returned": l}),
+                        Err(e) => json!({"ok": false, "kinds": kinds, "before": before, "after": after, "err": format!("{:?}", e)}),
+                    }
+                }
+                Err(e) => json!({"ok": false, "doc_err": format!("{:?}", e)}),
+            }
+        }
         "chardata" => chardata(case),
         "create" => create(case),
         "dom_order" => {
